@@ -313,7 +313,11 @@ func (r *runner) lawsAndReference(fn string, u []*tip, c config, deep bool, cmp 
 				r.violation(fmt.Sprintf("%s|reflexivity|%s", fn, reg), fmt.Sprintf("%s(x,x)=%d for x=%s; %s", fn, got, u[i].d, c), c, fn, []*tip{u[i]})
 			}
 			if got != -int(tab[j*n+i]) {
-				r.violation(fmt.Sprintf("%s|antisymmetry|%s|%s|vrf=%s", fn, reg, kindClass(u[i], u[j]), vrfClass(u[i], u[j])),
+				acl := "vrf=" + vrfClass(u[i], u[j])
+				if !u[i].d.Nil && !u[j].d.Nil && u[i].d.BN != u[j].d.BN {
+					acl = "block-numbers-differ"
+				}
+				r.violation(fmt.Sprintf("%s|antisymmetry|%s|%s|%s", fn, reg, kindClass(u[i], u[j]), acl),
 					fmt.Sprintf("%s(a,b)=%d but %s(b,a)=%d; a=%s b=%s; %s", fn, got, fn, tab[j*n+i], u[i].d, u[j].d, c), c, fn, []*tip{u[i], u[j]})
 			}
 			if want, ok := refCmp(u[i], u[j], c, deep); ok {
@@ -486,7 +490,7 @@ func (r *runner) runUniverse(u, uSmall []*tip, cfgs []config, with4 bool) {
 			r.maximality("Preferred", uSmall, 4, c, false, cmp, viaIface.Preferred)
 		}
 	}
-	for _, c := range cfgs {
+	for ci, c := range cfgs {
 		c := c
 		sel := selector(c)
 		deep := refDeep(c)
@@ -500,6 +504,12 @@ func (r *runner) runUniverse(u, uSmall []*tip, cfgs []config, with4 bool) {
 			return sel.PreferredWithDensity(cands, fp, c.TipBN)
 		}
 		r.lawsAndReference("CompareWithDensity", u, c, deep, cmp)
+		// the six core configurations get the full universe; the additional (thorough) ones
+		// permute 3-subsets of the sub-universe and no 4-subsets (pairs and triples stay complete)
+		if ci >= 6 {
+			r.maximality("PreferredWithDensity", uSmall, 3, c, deep, cmp, pref)
+			continue
+		}
 		r.maximality("PreferredWithDensity", u, 3, c, deep, cmp, pref)
 		if with4 {
 			r.maximality("PreferredWithDensity", uSmall, 4, c, deep, cmp, pref)
@@ -609,6 +619,10 @@ func main() {
 		{101, 102, 103, 110},           // dense, last block exactly on the window boundary (counts)
 		{101, 111, 112, 113, 114, 115}, // longer but sparse inside the window (111 = first slot outside)
 		{50, 100, 105, 110},            // blocks before / exactly at the fork slot do not count
+		// nothing enforces an order on the slot list: the documented count is order-independent
+		{110, 103, 102, 101},      // descending: 4 in the window
+		{115, 111, 101, 102, 103}, // out-of-window slots listed before in-window ones: 3
+		{105, 50, 112, 110, 100},  // unsorted mix of before / at / inside / after: 2
 	}
 	patsT := append(append([][]uint64{}, pats...),
 		[]uint64{110},
@@ -646,10 +660,10 @@ func main() {
 	var u, uSmall []*tip
 	if c.Thorough() {
 		u = windowedUniverse(bns, vrfs, patsT, true)
-		uSmall = windowedUniverse(bns, vrfs[:5], pats, true)
+		uSmall = windowedUniverse(bns, vrfs[:5], [][]uint64{pats[0], pats[1], pats[2], pats[5]}, true)
 	} else {
 		u = windowedUniverse(bns, vrfs, pats, true)
-		uSmall = windowedUniverse(bns, vrfs, pats[:3], true)
+		uSmall = windowedUniverse(bns, vrfs, [][]uint64{pats[0], pats[1], pats[5]}, true)
 	}
 	if c.Replay != "" {
 		replay(c, r)
@@ -657,12 +671,25 @@ func main() {
 	}
 	r.runUniverse(u, uSmall, cfgs, true)
 
+	// block numbers over the whole uint64 range (differences >= 2^63 included)
+	var extreme []*tip
+	for _, bn := range []uint64{0, 1, 9, 1<<63 - 1, 1 << 63, maxU64} {
+		for _, v := range []string{"", "00", "01"} {
+			for _, p := range [][]uint64{pats[0], pats[1]} {
+				extreme = append(extreme, mkTip(tipDesc{Kind: "windowed", BN: bn, VRF: v, Slots: p}))
+			}
+		}
+	}
+	extreme = append(extreme, mkTip(tipDesc{Nil: true}))
+	r.runUniverse(extreme, extreme, cfgs[:6], true)
+	c.Set("extreme_block_number_universe_tips", len(extreme))
+
 	// Tips of both repository implementations in one candidate set: SimpleChainTip carries a
 	// precomputed blocks/slots ratio and no slot list, WindowedChainTip a slot list.
 	var mixed []*tip
 	for _, bn := range []uint64{9, 10} {
 		for _, v := range []string{"", "01"} {
-			for _, p := range pats {
+			for _, p := range pats[:4] {
 				mixed = append(mixed, mkTip(tipDesc{Kind: "windowed", BN: bn, VRF: v, Slots: p}))
 			}
 			for _, rt := range [][2]uint64{{0, 0}, {3, 10}, {1, 2}, {1, 1}, {3, 1000}} {
